@@ -441,7 +441,7 @@ pub fn reduce(case: &GraphCase) -> Vec<GraphCase> {
         c.graph.edges.retain(|e| e.0 != last && e.1 != last);
         c.graph.pre_marker.truncate(last);
         c.graph.dirs.truncate(last);
-        let gone = [format!("f{last}.txt"), format!("f{last}.txt.txtpp")];
+        let gone = [format!("f{last}.txt"), format!("f{last}.txt.txtpp"), format!("f{last}.txtpp.txt")];
         c.inputs.retain(|s| !gone.iter().any(|g| s.ends_with(g.as_str())));
         if !c.inputs.is_empty() {
             v.push(c);
